@@ -75,7 +75,11 @@ theorem C13_components_zero_eff (E : K → K) (floor : K) (c : Components K) (b 
   refine ⟨apply_components_zero_eff E floor c b v h, ?_⟩
   simp [undo, h]
 
-/-- the components class multiplies "efficiencies × geo × block factors" (inside the fan) -/
+/-- the components class multiplies "efficiencies × geo × block factors" (inside the fan).  Since the extension of the
+    harness the three per-bin tables of the `Components` structure are, for the `comphand…` cases, built by hand from the raw
+    component arrays (crystal pair of the bin, symmetry class of the pair by union-find, pair of blocks; scanners with several
+    blocks per bucket), so this theorem is tied to `create_proj_data` / `apply_geo_norm` / `apply_block_norm` /
+    `apply_efficiencies` and not only to the multiplication -/
 theorem C13_components_eff_is_product (c : Components K) (b : Bin) :
     reported (.fromComponents c) b = some (if c.inFan b then
         (match c.block with | some B => B b | none => 1) *
@@ -102,7 +106,8 @@ theorem C13_chain_eff_prod (E : K → K) (ns : List (Norm K)) (b : Bin) :
       (∀ n ∈ ns, reported n b = none → reported (chainOf ns) b = none) :=
   ⟨trueEff_chainOf E ns b, fun es h => reported_chainOf ns b es h, fun n hn h => reported_chainOf_none ns b n hn h⟩
 
-/-- binary chains (the class itself): product, independent of the order of the members -/
+/-- binary chains (the class itself): product, independent of the order of the members (the correspondence now also
+    runs chains with a null member on either side, for which see `C13_chain_null_member`) -/
 theorem C13_chain_binary (E : K → K) (n1 n2 : Norm K) (b : Bin) :
     trueEff E (.chained n1 n2) b = trueEff E n1 b * trueEff E n2 b ∧
       trueEff E (.chained n1 n2) b = trueEff E (.chained n2 n1) b := by
@@ -136,6 +141,81 @@ theorem C13_trivial_within_tolerance (E : K → K) (tol : K) (c : Components K) 
   obtain ⟨lo, hi⟩ := invnorm_within c tol h0 h1 hr ht b hb
   exact ⟨v * c.invnorm b, rfl, mul_le_mul_of_nonneg_left lo hv, mul_le_mul_of_nonneg_left hi hv⟩
 
+/-- "A chain has the product of its members' efficiencies" — for the partial application of a chain
+    (`ChainedBinNormalisation::apply_only_first/second`, `undo_only_first/second`): each half multiplies (divides) by the
+    efficiency of that member alone, the two halves one after the other are the chain, and each half is inverted by its own
+    counterpart under that member's side conditions -/
+theorem C13_chain_partial (E : K → K) (floor : K) (hf : 0 < floor) (n1 n2 : Norm K) (b : Bin) (v : K) :
+    (applyOnlyFirst E floor n1 n2 b v).bind (applyOnlySecond E floor n1 n2 b) = apply E floor (.chained n1 n2) b v ∧
+      (undoOnlyFirst E n1 n2 b v).bind (undoOnlySecond E n1 n2 b) = undo E (.chained n1 n2) b v ∧
+      (∀ w, undoOnlyFirst E n1 n2 b v = some w → w = v * trueEff E n1 b) ∧
+      (∀ w, undoOnlySecond E n1 n2 b v = some w → w = v * trueEff E n2 b) ∧
+      trueEff E (.chained n1 n2) b = trueEff E n1 b * trueEff E n2 b ∧
+      (Defined E n1 b → AboveFloor E floor n1 b →
+        applyOnlyFirst E floor n1 n2 b v = some (v / trueEff E n1 b) ∧
+        (applyOnlyFirst E floor n1 n2 b v).bind (undoOnlyFirst E n1 n2 b) = some v ∧
+        (undoOnlyFirst E n1 n2 b v).bind (applyOnlyFirst E floor n1 n2 b) = some v) ∧
+      (Defined E n2 b → AboveFloor E floor n2 b →
+        applyOnlySecond E floor n1 n2 b v = some (v / trueEff E n2 b) ∧
+        (applyOnlySecond E floor n1 n2 b v).bind (undoOnlySecond E n1 n2 b) = some v ∧
+        (undoOnlySecond E n1 n2 b v).bind (applyOnlySecond E floor n1 n2 b) = some v) :=
+  ⟨rfl, rfl, fun w h => undo_eq_some E n1 b v w h, fun w h => undo_eq_some E n2 b v w h, rfl,
+   fun hd ha => ⟨apply_of_aboveFloor E floor hf n1 b v hd ha, undo_apply_id E floor hf n1 b v hd ha,
+     apply_undo_id E floor hf n1 b v hd ha⟩,
+   fun hd ha => ⟨apply_of_aboveFloor E floor hf n2 b v hd ha, undo_apply_id E floor hf n2 b v hd ha,
+     apply_undo_id E floor hf n2 b v hd ha⟩⟩
+
+/-- a chain with one null member (either side) is its other member: same `apply`, `undo`, efficiency and reported
+    efficiency; the half that addresses the null member does nothing and `is_first/second_trivial` of it is an error -/
+theorem C13_chain_null_member (E : K → K) (floor tol : K) (n : Norm K) (b : Bin) (v : K) :
+    apply E floor (.chained n .null) b v = apply E floor n b v ∧ apply E floor (.chained .null n) b v = apply E floor n b v ∧
+      undo E (.chained n .null) b v = undo E n b v ∧ undo E (.chained .null n) b v = undo E n b v ∧
+      trueEff E (.chained n .null) b = trueEff E n b ∧ trueEff E (.chained .null n) b = trueEff E n b ∧
+      reported (.chained n .null) b = reported n b ∧ reported (.chained .null n) b = reported n b ∧
+      applyOnlySecond E floor n .null b v = some v ∧ undoOnlySecond E n .null b v = some v ∧
+      applyOnlyFirst E floor .null n b v = some v ∧ undoOnlyFirst E .null n b v = some v ∧
+      isSecondTrivial tol n .null = none ∧ isFirstTrivial tol .null n = none :=
+  ⟨apply_chain_null_right E floor n b v, apply_chain_null_left E floor n b v, undo_chain_null_right E n b v,
+   undo_chain_null_left E n b v, by simp [trueEff], by simp [trueEff], reported_chain_null_right n b,
+   reported_chain_null_left n b, rfl, rfl, rfl, rfl, rfl, rfl⟩
+
+/-- "a normalisation that reports itself trivial changes nothing" — for a member of a chain asked through
+    `is_first_trivial()` / `is_second_trivial()`: the corresponding half of the chain changes nothing (same side
+    conditions as `C13_trivial_id_partial`: tolerance 0, in-fan bins, recorded ranges bound the values) -/
+theorem C13_chain_member_trivial_partial (E : K → K) (floor : K) (n1 n2 : Norm K) (b : Bin) (v : K) :
+    (isFirstTrivial 0 n1 n2 = some true → (∀ c, n1 = .fromComponents c → c.RangeOK ∧ c.inFan b = true) →
+        applyOnlyFirst E floor n1 n2 b v = some v ∧ undoOnlyFirst E n1 n2 b v = some v) ∧
+      (isSecondTrivial 0 n1 n2 = some true → (∀ c, n2 = .fromComponents c → c.RangeOK ∧ c.inFan b = true) →
+        applyOnlySecond E floor n1 n2 b v = some v ∧ undoOnlySecond E n1 n2 b v = some v) := by
+  constructor
+  · intro h hc
+    have := C13_trivial_id_partial E floor n1 (isTrivial_of_isFirstTrivial 0 n1 n2 h) (fun c hn => (hc c hn).1) b
+      (fun c hn => (hc c hn).2) v
+    exact ⟨this.1, this.2.1⟩
+  · intro h hc
+    have := C13_trivial_id_partial E floor n2 (isTrivial_of_isSecondTrivial 0 n1 n2 h) (fun c hn => (hc c hn).1) b
+      (fun c hn => (hc c hn).2) v
+    exact ⟨this.1, this.2.1⟩
+
+/-- anchor "`_already_set_up / proj_data_info_sptr`: geometry the object was set up for (checked on use)":
+    `apply/undo(RelatedViewgrams&)` of any object (any nesting of chains) runs iff every member that has a check was set up for
+    a geometry `>=` that of the data — the set-up state of a chain itself, of a `TrivialBinNormalisation` and of null members
+    is not looked at; the whole-data versions additionally need the object's own state and equal `ExamInfo` -/
+theorem C13_use_is_checked (examEq : Bool) (t : UseTree) :
+    (useRV t = true ↔ t.AllSetUp) ∧
+      (useWhole examEq t = true ↔ ownCheck t = true ∧ examEq = true ∧ t.AllSetUp) := by
+  refine ⟨useRV_iff t, ?_⟩
+  simp [useWhole, useRV_iff, and_assoc]
+
+/-- the two refusals by `error()` in `set_up`: the attenuation class on data with more than one TOF position, the
+    components class on TOF data, data with view mashing or data with axial compression -/
+theorem C13_set_up_refusals (numTofPoss : Int) (tof mash span : Bool) :
+    (fromAttenSetUp numTofPoss = true ↔ numTofPoss ≤ 1) ∧
+      (componentsSetUp tof mash span = true ↔ tof = false ∧ mash = false ∧ span = false) := by
+  constructor
+  · simp [fromAttenSetUp]
+  · simp [componentsSetUp, and_assoc]
+
 /-- "whether called on related viewgrams with any symmetries or on a whole data set": processing the data group by
     group, for ANY grouping of bins in which no bin occurs twice, normalises exactly the bins of the groups, each once … -/
 theorem C13_whole_data_eq_per_viewgram (f : Bin → K → Option K) (gs : List (List Bin)) (d : Bin → Option K)
@@ -163,7 +243,9 @@ theorem C13_tof_data_nontof_factor (E : K → K) (floor : K) (f : Bin → K) (b 
 
 /-- "the attenuation correction factors obtained from an attenuation map given in cm^-1 are the exponentials of its
     line integrals along the lines of response": `apply` multiplies by `E` of `Σ_j (a_bj · vx) · (μ_j / 10)` — the
-    matrix elements `a_bj` are lengths in units of the x voxel size `vx` (mm), `μ_j / 10` is the attenuation in mm^-1 -/
+    matrix elements `a_bj` are lengths in units of the x voxel size `vx` (mm), `μ_j / 10` is the attenuation in mm^-1.
+    (The correspondence runs the class with a ray-tracing matrix projector and, since the extension, with its default
+    projector `ForwardProjectorByBinUsingRayTracing`; in both cases the rows are data from a separate matrix object.) -/
 theorem C13_atten_is_exp_line_integral (E : K → K) (floor vx : K) (row : Bin → List (K × K)) (b : Bin) (v : K) :
     apply E floor (.fromAtten vx row) b v = some (v * E (((row b).map fun p => (p.1 * vx) * (p.2 / 10)).sum)) ∧
       trueEff E (.fromAtten vx row) b = 1 / E (((row b).map fun p => (p.1 * vx) * (p.2 / 10)).sum) := by
@@ -204,6 +286,28 @@ example : trueEff (fun _ => (1 : ℚ)) exChain exBin = 10 ∧ undo (fun _ => (1 
   · simp only [exChain, exBin, trueEff, factorKey]; norm_num
   · simp only [exChain, exBin, undo, factorKey, fdiv, Option.bind]; norm_num
   · simp only [exChain, exBin, exFloor, apply, factorKey, fdiv, cmax, Option.bind]; norm_num
+
+/-- a chain with a null member, partial application: the first half of `exChain` multiplies by `1/2`, the second by `20` -/
+example : undoOnlyFirst (fun _ => (1 : ℚ)) (.fromProjData (fun b => if b.tof = 0 then 2 else 5) false)
+      (.chained (.table fun b => 3 + b.tof) (.calib (fun _ => 4) 2 (1 / 2))) exBin 3 = some (3 / 2) ∧
+    undoOnlySecond (fun _ => (1 : ℚ)) (.fromProjData (fun b => if b.tof = 0 then 2 else 5) false)
+      (.chained (.table fun b => 3 + b.tof) (.calib (fun _ => 4) 2 (1 / 2))) exBin 3 = some 60 ∧
+    undo (fun _ => (1 : ℚ)) (.chained (.table fun _ => 7) .null) exBin 3 = some 21 ∧
+    isFirstTrivial (0 : ℚ) .trivial (.table fun _ => 7) = some true ∧ isSecondTrivial (0 : ℚ) .trivial (.table fun _ => 7) = some false := by
+  refine ⟨?_, ?_, ?_, rfl, rfl⟩
+  · simp only [undoOnlyFirst, exBin, undo, factorKey, fdiv]; norm_num
+  · simp only [undoOnlySecond, exBin, undo, fdiv, Option.bind]; norm_num
+  · simp only [undo, Option.bind]; norm_num
+
+/-- set-up states: a chain that was never set up whose members were (accepted on related viewgrams, refused on whole data);
+    a member set up for a smaller geometry (refused); refusals of `set_up` -/
+example : useRV (.chain false true (.checked true true) (.chain false true (.noCheck false true) .null)) = true ∧
+    useWhole true (.chain false true (.checked true true) (.checked true true)) = false ∧
+    useRV (.chain true true (.checked true true) (.checked true false)) = false ∧
+    useWhole false (.checked true true) = false ∧ useWhole true (.checked true true) = true ∧
+    fromAttenSetUp 5 = false ∧ fromAttenSetUp 1 = true ∧ componentsSetUp true false false = false ∧
+    componentsSetUp false false false = true := by
+  decide
 
 /-- `Real.exp` satisfies the hypotheses on `E` -/
 example : (∀ x y : ℝ, Real.exp (x + y) = Real.exp x * Real.exp y) ∧ ∀ x : ℝ, 0 < Real.exp x :=
